@@ -246,6 +246,11 @@ def calls(fam: str, a: dict) -> List[Tuple[str, List[Any], Callable[[], Any]]]:
         Xs = X.to_sptensor()
         out.append(("cp_als(sptensor)", [Xs, init], lambda: ttb.cp_als(Xs, a["rank"], maxiters=1, printitn=0, init=init,
                                                                         dimorder=I(a["dimorder"]))))
+        # the same options for the Tucker routine: rank per mode, the guess as a list of factor matrices
+        linit = [np.linalg.qr(np.arange(1.0, r * c + 1).reshape(r, c) % 5 + np.eye(r, c))[0] if r >= c else np.ones((r, c))
+                 for r, c in zip(a["initrows"], a["initcols"])]
+        out.append(("tucker_als(init list)", [X] + linit, lambda: ttb.tucker_als(X, a["rank"], maxiters=1, printitn=0, init=linit,
+                                                                                 dimorder=I(a["dimorder"]))))
     else:
         raise ValueError(fam)
     return out
